@@ -286,6 +286,36 @@ func judge(cs Case, exp *expect, o *probe.Outcome) verdict {
 			sp.name, fmtKVs(want), fmtKVs(have), fmtKVs(missing), fmtKVs(extra))
 		return v
 	}
+	// second read path: the collection as dumped through the plugin interface must agree with what the rule saw
+	if o.Vars != nil {
+		for _, sp := range varSpecs {
+			if sp.mode != "kv" {
+				continue
+			}
+			var dump []string
+			found := false
+			for k, l := range o.Vars {
+				if strings.HasSuffix(k, "/"+sp.name) {
+					dump, found = l, true
+				}
+			}
+			var seen []string
+			for _, p := range got[sp.name] {
+				if p.k != "" || p.v != "" {
+					seen = append(seen, p.k+"="+p.v)
+				}
+			}
+			sort.Strings(seen)
+			if !found && len(seen) == 0 {
+				continue
+			}
+			if strings.Join(seen, "\x01") != strings.Join(dump, "\x01") {
+				v.sig = "readpath/" + sp.name + ":rule-view-and-plugin-view-differ"
+				v.what = fmt.Sprintf("%s: the rule read %q, Variables().FindAll() gives %q", sp.name, seen, dump)
+				return v
+			}
+		}
+	}
 	return v
 }
 
